@@ -212,6 +212,30 @@ CLAIMS = {
         "only). Similarity hits (cosine > 0.52 by default) serve ANOTHER query's fresh entry by design: judged relative to the "
         "stored query, as the statement's clauses are. One defect fixed: d496037.",
    design="§3 C07"),
+ "C08": dict(
+   engine="conc",
+   technique="Lean 4 proof (no state of the abstract lock system is a deadlock under a rank discipline, any number of threads/locks; the rank is REGENERATED from the lock nesting observed on the current code and checked by `decide`) + controlled-scheduler exploration of the real engine (deadlock = no enabled thread)",
+   text="no_deadlock_of_ranked (Conc/LockSystem: mutexes, writer-preferring rwlocks, upgradable reads/upgrades), generated "
+        "edges_ranked + no_reentrancy over Conc/LockGraphGenerated (19 locks / 30 nesting edges on the current tree), C08_no_deadlock, "
+        "C08_nesting_acyclic. Tie / search: every unordered pair of a 16-operation API catalogue on one engine with persistence, "
+        "stateless DFS over schedules at lock-acquisition granularity (preemption bound 1 quick / 2 thorough) plus random triples "
+        "with automatic snapshots; scheduler = hooks in a vendored parking_lot ([patch.crates-io] of the harness, no /repo hook).",
+   note="Partial: the theorem covers states whose nesting stays within the OBSERVED edges (coverage = the catalogue and its warm-up); "
+        "async server paths and non-parking_lot blocking not covered. Two deadlocks found and fixed: 3ee7542 (hot-tier stats/documents "
+        "order), 7d0abc7 (delete holds the metadata index lock across its automatic snapshot).",
+   design="§3 C08"),
+ "C05": dict(
+   engine="conc",
+   technique="Lean 4 proof (the coherence check is the read's linearisation point; instants order respects real time; a two-observation read tears; the repaired token pairing returns one state) + controlled-scheduler exploration with a per-document linearizability checker",
+   text="C05_read_linearises_at_the_check (injective digest), C05_instants_order_respects_real_time (any number of operations), "
+        "C05_two_observation_read_tears (witness of the repaired defect), C05_one_observation_read_is_a_state, C05_paired_by_token. "
+        "Search: two threads (writer: insert/overwrite/delete/metadata update; reader: point / cache-aware / with-metadata / bulk / "
+        "exists) on a cold-only and a hot+cold document, DFS over schedules with preemption bound 2; three threads with random "
+        "schedules; every distinct history checked (Wing-Gong) against the per-document register specification.",
+   note="Partial: the theorems carry the linearisation argument, the executions are decided by the search (bounded preemptions / "
+        "sampled), at lock-acquisition granularity. One defect fixed (2ef43c1 torn read), one known finding "
+        "(KF-C05-drain-resurrects-deleted). The server binary's query RPC assembles vector and metadata separately too (not driven here).",
+   design="§3 C05"),
 }
 
 NOT_APPLICABLE = {
